@@ -227,6 +227,24 @@ def first_leaf(f):
     return f['op']
 
 
+def pexp(f):
+    """point-wise exponent of the group functionals (field s of the expression: 1, default 2, inf)"""
+    s = f['s']
+    if s == [1, 1]:
+        return 1
+    if s == [1, 0]:
+        return np.inf
+    return 2
+
+
+def rel_event(cl, mode, lhs, rhs, slackq=REL_SLACKQ):
+    """A named relation between two observed numbers (event kind "rel"), or None when not quantisable."""
+    a, b = fixq(lhs), fixq(rhs)
+    if a is None or b is None:
+        return None
+    return {'k': 'rel', 'cl': cl, 'mode': mode, 'lhsq': a, 'rhsq': b, 'slackq': slackq}
+
+
 def build(f, space, sp, variant=0):
     """Functional expression (JSON of the TLA+ record) -> ODL functional on `space`.
     variant 0: operator syntax of the public API ; variant 1: explicit class constructors."""
@@ -242,7 +260,10 @@ def build(f, space, sp, variant=0):
     if op == 'Linf':
         return S.LpNorm(space, np.inf)
     if op == 'GroupL1':
-        return S.GroupL1Norm(space) if variant == 0 else S.GroupL1Norm(space, 2)
+        e = pexp(f)
+        if e == 2:
+            return S.GroupL1Norm(space) if variant == 0 else S.GroupL1Norm(space, 2)
+        return S.GroupL1Norm(space, exponent=e)
     if op == 'Huber':
         return S.Huber(space, float(s))
     if op == 'IndBox':
@@ -262,7 +283,10 @@ def build(f, space, sp, variant=0):
     if op == 'IndBallInf':
         return S.IndicatorLpUnitBall(space, np.inf)
     if op == 'IndGroupBall':
-        return S.IndicatorGroupL1UnitBall(space) if variant == 0 else S.IndicatorGroupL1UnitBall(space, 2)
+        e = pexp(f)
+        if e == 2:
+            return S.IndicatorGroupL1UnitBall(space) if variant == 0 else S.IndicatorGroupL1UnitBall(space, 2)
+        return S.IndicatorGroupL1UnitBall(space, exponent=e)
     if op == 'Quad':
         A = None
         if f['v']:
@@ -278,9 +302,9 @@ def build(f, space, sp, variant=0):
     if op == 'Const':
         return S.ZeroFunctional(space) if c == 0 else S.ConstantFunctional(space, float(c))
     if op == 'KL':
-        return S.KullbackLeibler(space, prior=vec(f['v']))
+        return S.KullbackLeibler(space, prior=vec(f['v'])) if f['v'] else S.KullbackLeibler(space)
     if op == 'KLcc':
-        return S.KullbackLeibler(space, prior=vec(f['v'])).convex_conj
+        return (S.KullbackLeibler(space, prior=vec(f['v'])) if f['v'] else S.KullbackLeibler(space)).convex_conj
     # ---- rules
     if op == 'SepSum':
         g1 = build(f['args'][0], space[0], part_desc(sp, 1), variant)
